@@ -39,6 +39,30 @@ SHIPPED = ['grs80', 'wgs84', 'ans', 'intl24']
 E9 = SHIPPED + ['e63_150', 'e63_400', 'e64_150', 'e64_400', 'e635_275']
 G8 = SHIPPED + ['g63_280', 'g63_320', 'g64_280', 'g64_320', 'grs80_a3mm']
 
+def ell_field_forms(name):
+    """the same ellipsoid DEFINED with its two numbers in other exact forms: (form name, fresh Ellipsoid).  The semi-major axis of every
+    shipped ellipsoid is a whole number of metres (ints, numpy integers of 32 / 64 bits, unsigned); 1/f as Decimal / Fraction / numpy"""
+    import numpy as np
+    from decimal import Decimal
+    from fractions import Fraction
+    a, invf = ELL_AF[name]
+    out = []
+    if float(a).is_integer():
+        ia = int(a)
+        for nm, x in (('int', ia), ('npi64', np.int64(ia)), ('npi32', np.int32(ia)), ('npu32', np.uint32(ia)), ('np64', np.float64(a))):
+            out.append(('a:' + nm, x, invf))
+        out.append(('a:int,1/f:Decimal', ia, Decimal(repr(invf))))
+        out.append(('a:int,1/f:Fraction', ia, Fraction(repr(invf))))
+    out.append(('1/f:np64', a, np.float64(invf)))
+    res = []
+    for nm, aa, ff in out:
+        try:
+            res.append((nm, gc.Ellipsoid(aa, ff)))
+        except Exception as e:
+            res.append((nm, e))
+    return res
+
+
 def ell_obj(name):
     """the ellipsoid object for a case: shipped ones are the shipped constants; arbitrary ones are built FRESH for every use
     and dropped afterwards (CPython then reuses their address for the next one: a memo keyed on id() or on one parameter
